@@ -28,7 +28,7 @@ RULE = ('C03-style histories on Cache / FanoutCache in which handle events are i
         'value mode) cells')
 DISTINCT = ('event_cells', 'golden_cells')
 REQUIRED = ('calls_judged', 'events_close', 'events_second_handle', 'events_pickle', 'events_thread', 'events_process',
-            'events_fork', 'events_opened_under_exclusive_lock', 'rollback_journal_histories', 'settings_read_back', 'fanout_histories', 'deque_events', 'index_events', 'django_events',
+            'events_fork', 'events_reset', 'events_opened_under_exclusive_lock', 'rollback_journal_histories', 'settings_read_back', 'fanout_histories', 'deque_events', 'index_events', 'django_events',
             'golden_items_read', 'golden_rows_compared', 'golden_schema_compared', 'jsondisk_histories')
 ASSUMPTIONS = ('the Disk class is a constructor argument, not a stored setting: non-pickle reopen events pass the same '
                'class, as a user must', 'golden/ was written by the pinned commit 5a4f96f (tools/mkgolden.py)')
@@ -210,10 +210,11 @@ def cache_history(dc, sc, res, rng, kind, label):
         res.count('handles_opened_by_spelling_%d' % how)
         return dc.Cache(spelled, **kw) if kind == 'cache' else dc.FanoutCache(spelled, shards=shards, **kw)
 
+    per_shard_limit = {'value': settings.get('size_limit', 2**30) / shards}
+
     def check_settings(h, where):
         given = dict(settings)
-        if kind == 'fanout':
-            given['size_limit'] = given.get('size_limit', 2**30) / shards
+        given['size_limit'] = per_shard_limit['value']
         for k, v in given.items():
             got = getattr(h, k)          # FanoutCache forwards setting names to its first shard
             if got != v:
@@ -240,7 +241,8 @@ def cache_history(dc, sc, res, rng, kind, label):
                 continue
             drv.real = gen.pick(rng, handles)
             if rng.random() < 0.12:
-                ev = gen.pick(rng, ['close', 'second', 'pickle', 'thread', 'process', 'fork', 'close', 'second_locked'])
+                ev = gen.pick(rng, ['close', 'second', 'pickle', 'thread', 'process', 'fork', 'close', 'second_locked',
+                                    'reset'])
                 pos = 'early' if i < len(steps) / 3 else 'late' if i > 2 * len(steps) / 3 else 'middle'
                 res.seen('event_cells', (kind, ev, pos))
                 drv.history.append(('EVENT', (ev,), {}))
@@ -274,6 +276,24 @@ def cache_history(dc, sc, res, rng, kind, label):
                         res.count('events_opened_under_exclusive_lock')
                         res.seen('event_cells', (kind, 'locked-from-statement', min(ctrl.take_at, 70) // 5))
                     check_settings(h, 'an object opened while the database was locked exclusively')
+                elif ev == 'reset':
+                    # a setting is changed through whichever handle is current (its own cached copy may be stale: another
+                    # handle may have changed the setting since); the stored value and every handle opened later follow.
+                    # size_limit is far above the content, so the histories themselves are not affected
+                    value = gen.pick(rng, [2**26, 2**27, 2**28, 2**29, 2**30])
+                    got = drv.real.reset('size_limit', value)
+                    per_shard_limit['value'] = value
+                    res.count('events_reset')
+                    if got != value or drv.real.reset('size_limit') != value:
+                        raise Mismatch('reset(size_limit, %r) returned %r and a reload gives %r' % (
+                            value, got, drv.real.reset('size_limit')), drv.witness())
+                    for o in drv.observers:
+                        if o.settings().get('size_limit') != value:
+                            raise Mismatch('after reset(size_limit, %r) through one of %d handles the Settings table holds %r' % (
+                                value, len(handles), o.settings().get('size_limit')), drv.witness())
+                    h = fresh()
+                    handles.append(h)
+                    check_settings(h, 'an object opened after a setting was changed at run time')
                 elif ev == 'pickle':
                     h = pickle.loads(pickle.dumps(drv.real))
                     handles.append(h)
